@@ -74,4 +74,10 @@ def expected (h : Adts) : Aac.Info :=
   { channels := channelsOf h.chanConfig, sampleRate := rate h, bitrate := ⟨rawBits h * rate h, samples h⟩,
     length := ⟨samples h, rate h⟩, adif := false }
 
+/-- mutagen documents `length` for ADTS as a guess: the samples of the frames it looked at, scaled by
+(file size - 1) over the bytes those frames occupy; for a file that consists of the frames only:
+`samples · (N - 1) / (N · rate)` with `N` the file size -/
+def lengthEstimate (h : Adts) : Ratio :=
+  ⟨(samples h : Int) * (((build h).length : Int) - 1), (((build h).length * rate h : Nat) : Int)⟩
+
 end Mutagen.Spec.Aac
